@@ -17,6 +17,7 @@ def dispatch (toks : List String) : String :=
   | "C02" :: rest => Poor.Drv.Route.handle rest
   | "C19" :: rest => Poor.Drv.Route.handle rest
   | "RE" :: rest => Poor.Drv.Route.handleRe rest
+  | "JS" :: rest => Poor.Drv.Json.handle rest
   | "C18" :: rest => Poor.Drv.HeaderValue.handle rest
   | "C13" :: rest => Poor.Drv.Session.handle rest
   | "C12" :: rest => Poor.Drv.Static.handle rest
